@@ -3,11 +3,15 @@
 
     # ...                                       -> skip
     life udp <id> dom=<n> refresh=<s> slack=<ms> grace=<ms> closeat=<ms> closers=<k> reps=<r>
-             sends=<send>!<send>... tail=<count>~<every ms>~<desc>
+             [unrefreshable=<tid> early=<ms>] sends=<send>!<send>... tail=<count>~<every ms>~<desc>
+        unrefreshable=<tid>: the generator's claim that template <tid> cannot be rebuilt by the refresher; the
+        specification derives that itself (Spec.C14.unbuildable: the model's makeTemplateSet on the elements of
+        every template of the scenario) and fails the session if claim and derivation differ. early=<ms>: how
+        much earlier than k * refresh after InitExportingProcess returned the k-th tick may fire.
     life tcp <id> dom=<n> check=<ms> slack=<ms> grace=<ms> mode=<full|half|idle|cclose> peerat=<ms|->
              closeat=<ms> closers=<k> reps=<r> sends=<send>!... loop=<start>~<every>~<until>~<desc>|- tail=...
         <send> = <at ms>~<desc>      <desc> = <path 0|1|2>~<t|d>~<set id>~<tid@ie=value,...;...>   (as in `exp send`)
-                                                -> expect <proto> app-ok=<n> refresh=<n> refused=<n> wire=<n> closed=<b> stop-closes=<n> spec=<b>
+                                                -> expect <proto> app-ok=<n> refresh=<n> refused=<n> wire=<n> closed=<b> stop-closes=<n> spec=<b> unbuildable=<tid,...|->
         the MODEL's canonical run of the scenario (Model/Lifecycle.lean): the scheduled sends in order, a whole
         refresh at every multiple of the refresh interval before the close (UDP), the peer close followed by a
         connection check that reads EOF (TCP), the Close calls, the sends after Close.
@@ -17,7 +21,8 @@
         Spec.C14.udpVerdict / tcpVerdict on the implementation's observation:
         udp sends=<s>,... dgrams=<t>:<hex>,... close=<start>,<done>,<calls>,<returned> bg=<n> panic=<0|1> race=<0|1>
         tcp sends=<s>,... chunks=<t>:<hex>,... peer=<t|-> readend=<t|-> close=... bg=<n> panic=<0|1> race=<0|1>
-        <s> = <e<i>|l|t>:<t call>:<t return>:<ok|err>:<bytes>    (e<i> = i-th scheduled send, l = loop send, t = tail send)
+        <s> = <e<i>|l|t>:<t call>:<t return>:<ok|err|hung>:<bytes>    (e<i> = i-th scheduled send, l = loop send, t = tail send;
+              hung = the call had not returned when the harness' 2 s watchdog gave it up)
         scenario times in ms, observed times in MICROSECONDS, both since InitExportingProcess returned.
 
   Core-only imports.
@@ -86,6 +91,8 @@ structure Scenario where
   sends : List (Nat × Desc)
   loop : Option (Nat × Nat × Nat × Desc)
   tail : Option (Nat × Nat × Desc)
+  unref : Option Nat := none
+  earlyMs : Nat := 0
 
 def parseMode : String → Option C14.TcpMode
   | "full" => some .full | "half" => some .half | "idle" => some .idle | "cclose" => some .cclose | _ => none
@@ -143,8 +150,15 @@ def parseScenario (a : List String) : Option Scenario :=
     let sends ← (kv toks "sends").bind parseSendList
     let loop ← parseLoop (kv toks "loop")
     let tail ← parseTail (kv toks "tail")
+    let unref : Option Nat ← match kv toks "unrefreshable" with
+      | none => some none
+      | some v => v.toNat?.map some
+    let early ← match kv toks "early" with
+      | none => some 0
+      | some v => v.toNat?
     pure { udp := udp, dom := dom, periodMs := period, slackMs := slack, graceMs := grace, mode := mode, peerAt := peerAt,
-           closeAt := closeAt, closers := closers, reps := reps, sends := sends, loop := loop, tail := tail }
+           closeAt := closeAt, closers := closers, reps := reps, sends := sends, loop := loop, tail := tail,
+           unref := unref, earlyMs := early }
   | _ => none
 
 /-! ## the model's canonical run -/
@@ -200,6 +214,11 @@ def isRefreshMsg (st : LState) (w : Bytes) : Bool :=
     | some s => (createMsg s.updateLen st.exp.dom 0 0).map (·.drop 12) == some (w.drop 12) && w.length > 20
     | none => false
 
+/-- every set descriptor of the scenario, called or not -/
+def scheduledDescs (sc : Scenario) : List SetDesc :=
+  sc.sends.map (·.2.d) ++ (match sc.loop with | some (_, _, _, d) => [d.d] | none => []) ++
+    (match sc.tail with | some (_, _, d) => [d.d] | none => [])
+
 def opScenario (a : List String) : String :=
   match parseScenario a with
   | none => "bad-op"
@@ -210,7 +229,9 @@ def opScenario (a : List String) : String :=
     let errs := (r.2.filter fun o => match o with | some .err => true | _ => false).length
     let wire := r.1.wire.length
     let spec := C14.framesOK sc.dom r.1.wire && C14.streamOK sc.dom r.1.wire.flatten
-    s!"expect {if sc.udp then "udp" else "tcp"} app-ok={oks} refresh={wire - oks} refused={errs} wire={wire} closed={r.1.closed} stop-closes={r.1.stopCloses} spec={spec}"
+    let unb := C14.unbuildable (scheduledDescs sc)
+    let unbTok := if unb.isEmpty then "-" else ",".intercalate (unb.map toString)
+    s!"expect {if sc.udp then "udp" else "tcp"} app-ok={oks} refresh={wire - oks} refused={errs} wire={wire} closed={r.1.closed} stop-closes={r.1.stopCloses} spec={spec} unbuildable={unbTok}"
 
 /-! ## the specification on the implementation's observation -/
 
@@ -233,12 +254,12 @@ def parseSends (sc : Scenario) (tok : String) : Option (List (SetDesc × C14.Sen
       let tc ← tc.toNat?
       let tr ← tr.toNat?
       let n ← n.toNat?
-      let ok ← if res == "ok" then some true else if res == "err" then some false else none
+      let ok ← if res == "ok" then some true else if res == "err" || res == "hung" then some false else none
       let d ← if kind == "l" then sc.loop.map (·.2.2.2.d)
         else if kind == "t" then sc.tail.map (·.2.2.d)
         else if kind.startsWith "e" then ((String.ofList (kind.toList.drop 1)).toNat?.bind fun i => sc.sends[i]?).map (·.2.d)
         else none
-      pure (d, { tCall := tc, tRet := tr, ok := ok, n := n })
+      pure (d, { tCall := tc, tRet := tr, ok := ok, n := n, hung := res == "hung" })
     | _ => none
 
 def parseClose (tok : String) : Option C14.CloseObs :=
@@ -251,6 +272,10 @@ def parseRuntime (toks : List String) : Option C14.Runtime := do
   let p ← kvNat toks "panic"
   let r ← kvNat toks "race"
   pure { bgLeft := bg, panic := p != 0, race := r != 0 }
+
+/-- what the specification needs of the scenario besides the per-call descriptors -/
+def withScenario (sc : Scenario) (o : C14.UdpObs) : C14.UdpObs :=
+  { o with scheduled := scheduledDescs sc, unref := sc.unref, early := sc.earlyMs * 1000 }
 
 def chkLife (a : List String) : String :=
   let (op, obs) := splitBar a
@@ -269,8 +294,9 @@ def chkLife (a : List String) : String :=
           if sc.udp then
             match (kv toks "dgrams").bind parseTimed with
             | some dg =>
-              C14.udpVerdict { dom := sc.dom, period := sc.periodMs * 1000, slack := sc.slackMs * 1000, grace := sc.graceMs * 1000,
-                               plan := sends.map (·.1), sends := sends.map (·.2), dgrams := dg, close := close, rt := rt }
+              C14.udpVerdict (withScenario sc
+                             { dom := sc.dom, period := sc.periodMs * 1000, slack := sc.slackMs * 1000, grace := sc.graceMs * 1000,
+                               plan := sends.map (·.1), sends := sends.map (·.2), dgrams := dg, close := close, rt := rt })
             | none => "fails observation-shape"
           else
             match (kv toks "chunks").bind parseTimed, kv toks "peer", kv toks "readend" with
